@@ -429,6 +429,36 @@ impl CommandBuilder<'_> {
     }
 
     /// The initial arguments with every occurrence of the -I string replaced.
+    #[cfg(unix)]
+    fn substitute(
+        initial_args: &[OsString],
+        replace_str: &str,
+        replacement: &OsStr,
+    ) -> Vec<OsString> {
+        use std::os::unix::ffi::OsStrExt;
+
+        // On bytes: an input line need not be valid UTF-8.
+        let (needle, replacement) = (replace_str.as_bytes(), replacement.as_bytes());
+        initial_args
+            .iter()
+            .map(|arg| {
+                let mut rest = arg.as_bytes();
+                if needle.is_empty() {
+                    return arg.clone();
+                }
+                let mut out = Vec::with_capacity(rest.len());
+                while let Some(at) = rest.windows(needle.len()).position(|w| w == needle) {
+                    out.extend_from_slice(&rest[..at]);
+                    out.extend_from_slice(replacement);
+                    rest = &rest[at + needle.len()..];
+                }
+                out.extend_from_slice(rest);
+                bytes_to_os_string(&out)
+            })
+            .collect()
+    }
+
+    #[cfg(not(unix))]
     fn substitute(
         initial_args: &[OsString],
         replace_str: &str,
